@@ -73,9 +73,13 @@ def assembleStripedArray (w : Nat) (parts : Nat → List Int) : Except Err (List
 /-! ## `ops.assemble_striped_ragged_array` (L82-125) -/
 
 /-- error of rank `r`'s contribution: with ≥ 2 owned trajectories the `RaggedArray`
-    constructor checks the total length (DataInvalid); with no owned trajectory
+    constructor checks the total length (`dataInvalid` stands for both DataInvalid from
+    `partition_list` and numpy's reshape / broadcast ValueError when the owned lengths are all
+    equal; a single equal-length row that numpy would silently broadcast is NOT modelled —
+    wrong local lengths are outside the property); with no owned trajectory
     `global_ra[rank] = …` is an IndexError; with exactly one the row is *replaced*, whatever
-    its length (no check in the code). -/
+    its length (no check in the code).  Trajectory lengths are assumed `≥ 1` (the library's
+    loader rejects lengths `≤ 0`); zero-length trajectories are not exercised. -/
 def raggedErr {α} (w : Nat) (L : List Nat) (locals : Nat → List α) (r : Nat) : Option Err :=
   let ll := stripe w L r
   if ll.length > 1 then (if ll.sum = (locals r).length then none else some .dataInvalid)
@@ -126,22 +130,23 @@ def locate : List Nat → Nat → Option (Nat × Nat)
   | [], _ => none
   | l :: ls, g => if g < l then some (0, g) else (locate ls (g - l)).map fun p => (p.1 + 1, p.2)
 
-/-- `ctr_ids_mpi` for flat global ids *as written*: `np.where(RaggedArray == c)` only
-    works when numpy can turn the boolean ragged array into a rectangular one, i.e. when all
-    trajectories have the same length (ValueError otherwise). -/
+/-- `ctr_ids_mpi` for flat global ids: `ra.where(global_inds == c)` locates the
+    `(trajectory, frame)` of `c` (IndexError when `c` is not a frame), then the pair path -/
 def ctrIdsMpiFlat (w : Nat) (L : List Nat) (cs : List Nat) : Except Err (List (Nat × Nat)) :=
-  if L.all (fun l => l = L.headD 0) then
-    cs.mapM fun c => match locate L c with
-      | none => .error .indexError
-      | some p => ctrIdMpi w L p
-  else .error .valueError
-
-/-- what the flat path is documented to do (used for the inverse theorem and once the
-    `np.where` → `ra.where` repair is applied) -/
-def ctrIdsMpiFlatIntended (w : Nat) (L : List Nat) (cs : List Nat) : Except Err (List (Nat × Nat)) :=
   cs.mapM fun c => match locate L c with
     | none => .error .indexError
     | some p => ctrIdMpi w L p
+
+/-- `_kmedoids_inputs_tree_mpi` (kmedoids.py L253-283) *as written*: with a warm start
+    (centers, assignments and distances all given) the centers are converted with
+    `ctr_ids_mpi`; without one the code evaluates `np.arange(X)` on the data array
+    (ValueError; TypeError / AttributeError from `None.append` for a single frame) before
+    doing anything else -/
+def kmedoidsInputsMpi (w : Nat) (L : List Nat) (warm : Option (List (Nat × Nat))) :
+    Except Err (List (Nat × Nat)) :=
+  match warm with
+  | none => .error .valueError
+  | some ps => ctrIdsMpi w L ps
 
 /-! ## `ops.striped_array_max` (L128-140), `ops.striped_array_mean` (L143-166) -/
 
@@ -161,16 +166,14 @@ def stripedMax {α} [LT α] [DecidableRel (α := α) (· < ·)] (w : Nat) (local
     | none => .error .valueError
 
 /-- `striped_array_mean`: size 1 divides locally (0/0 is nan); otherwise sums and counts are
-    allreduced and every rank asserts `global_sum >= local_sum` -/
+    allreduced and divided (`assert global_len >= 0` cannot fail) -/
 def stripedMean (w : Nat) (locals : Nat → List Rat) : Except Err Rat :=
   if w = 1 then
     (if (locals 0).length = 0 then .error .nan else .ok ((locals 0).sum / ((locals 0).length : Rat)))
   else
     let gsum := Ens.sumTo w fun r => (locals r).sum
     let glen := Ens.sumTo w fun r => (locals r).length
-    match firstErr w (fun r => if gsum < (locals r).sum then some .assertion else none) with
-    | some e => .error e
-    | none => if glen = 0 then .error .nan else .ok (gsum / (glen : Rat))
+    if glen = 0 then .error .nan else .ok (gsum / (glen : Rat))
 
 /-! ## `ops.randind` (L215-272) -/
 
@@ -213,23 +216,25 @@ def distributeFrame {β} (w : Nat) (data : Nat → List β) (idx owner : Nat) : 
 /-- `row[::s]` for `s ≥ 1` -/
 def everyNth {β} (s : Nat) (row : List β) : List β := stripe s row 0
 
-/-- rank `r` of `w` loads keys / files `r, r+w, …`; the global lengths are the stored
-    (unstrided) first dimensions of *all* keys / files.  A rank without a key fails
-    (IndexError in `ra.load` / UnboundLocalError after the empty loop). -/
+/-- `load_h5_as_striped`: rank `r` of `w` loads keys `r, r+w, …`, every `stride`-th frame;
+    the global lengths are `len(range(0, n, stride))` for *all* keys.  A rank without a key
+    fails (IndexError in `ra.load`). -/
 def loadStriped {β} (w : Nat) (rows : List (List β)) (stride : Nat) (r : Nat) :
     Except Err (List Nat × List β) :=
   let mine := stripe w rows r
   if mine.isEmpty then .error .indexError else
-  .ok (rows.map List.length, (mine.map (everyNth stride)).flatten)
+  .ok (rows.map (fun row => (everyNth stride row).length), (mine.map (everyNth stride)).flatten)
 
-/-- `load_npy_as_striped` allocates the unstrided total and asserts it was filled -/
+/-- `load_npy_as_striped`: same layout; the local array is allocated from the local
+    (strided) lengths and the code asserts that it was filled exactly (a rank without a file
+    fails with UnboundLocalError after the empty loop) -/
 def loadNpyStriped {β} (w : Nat) (rows : List (List β)) (stride : Nat) (r : Nat) :
     Except Err (List Nat × List β) :=
   let mine := stripe w rows r
   if mine.isEmpty then .error .indexError else
   let data := (mine.map (everyNth stride)).flatten
-  if data.length = (mine.map List.length).sum then .ok (rows.map List.length, data)
-  else .error .assertion
+  let glen := rows.map (fun row => (everyNth stride row).length)
+  if data.length = (stripe w glen r).sum then .ok (glen, data) else .error .assertion
 
 /-! ## distances with `+inf` (driver instance) -/
 
